@@ -266,6 +266,16 @@ func declCorrespondence(c *Ctx, req *ir.Request, ts *tsSide, model map[string]an
 		res.Corr("ts_decls", fmt.Sprintf("[%s] driver: %v", tag, e), replay)
 		return false
 	}
+	// do the decidable hypotheses of C07.emitted_block_*_partial hold for this schema?
+	if na, _ := model["no_annotations"].(bool); !na {
+		res.Count("plain_theorems:schema_has_annotations")
+	} else if dc, _ := model["decl_check"].(bool); !dc {
+		res.Count("plain_theorems:decl_check_fails")
+	} else if nd, _ := model["full_names_distinct"].(bool); !nd {
+		res.Count("plain_theorems:full_names_not_distinct")
+	} else {
+		res.Count("plain_theorems:hypotheses_hold")
+	}
 	ok := true
 	md, _ := model["decls"].([]any)
 	if d := declDiff(toAnyList(ts.client.Decls), md); d != "" {
